@@ -1,0 +1,42 @@
+//go:build verif
+
+package localhost
+
+// Contracts for the deductive verifier in /verif (govc). Comment-only; compiled only with -tags verif.
+
+//@ contract (LightClientModule).VerifyMembership
+//@   let S = kv(ctx, l.storeService)
+//@   let mp = dyn(path, commitmenttypesv2.MerklePath)
+//@   requires isType(height, clienttypes.Height)
+//@   ensures iff: err == nil <==> (str(proof) == str(SentinelProof) && isType(path, commitmenttypesv2.MerklePath) && len(mp.KeyPath) == 2 && has(S, mp.KeyPath[1]) && get(S, mp.KeyPath[1]) == value && !height.GT(clienttypes.GetSelfHeight(ctx)))
+//@   ensures not_future: err == nil ==> !height.GT(clienttypes.GetSelfHeight(ctx))
+//@   ensures pure: world(ctx) == old(world(ctx))
+
+//@ contract (LightClientModule).VerifyNonMembership
+//@   let S = kv(ctx, l.storeService)
+//@   let mp = dyn(path, commitmenttypesv2.MerklePath)
+//@   requires isType(height, clienttypes.Height)
+//@   ensures iff: err == nil <==> (str(proof) == str(SentinelProof) && isType(path, commitmenttypesv2.MerklePath) && len(mp.KeyPath) == 2 && !has(S, mp.KeyPath[1]) && !height.GT(clienttypes.GetSelfHeight(ctx)))
+//@   ensures not_future: err == nil ==> !height.GT(clienttypes.GetSelfHeight(ctx))
+//@   ensures pure: world(ctx) == old(world(ctx))
+
+//@ contract (LightClientModule).Initialize
+//@   ensures err != nil
+
+//@ contract (LightClientModule).VerifyClientMessage
+//@   ensures err != nil
+
+//@ contract (LightClientModule).RecoverClient
+//@   ensures err != nil
+
+//@ contract (LightClientModule).VerifyUpgradeAndUpdateState
+//@   ensures err != nil
+
+//@ contract (LightClientModule).Status
+//@   ensures result == exported.Active
+
+//@ contract (LightClientModule).TimestampAtHeight
+//@   ensures err == nil && result0 == blocktime(ctx) % 18446744073709551616
+
+//@ contract (LightClientModule).LatestHeight
+//@   ensures isType(result, clienttypes.Height) && dyn(result, clienttypes.Height) == clienttypes.GetSelfHeight(ctx)
